@@ -54,7 +54,40 @@ fn count_strings(k: u64, l: u32) -> u64 {
 fn error_kind_ok(text: &str) -> bool {
     text.starts_with("failed to parse glob expression")
         || text.starts_with("malformed glob expression")
-        || text == "failed to compile glob: oversized program"
+        || text == OVERSIZED
+}
+
+const OVERSIZED: &str = "failed to compile glob: oversized program";
+
+/// A conservative "this program is certainly not oversized": the product of all the decimal
+/// numbers of the text (an upper bound of how often any token can be unrolled by counted
+/// repetitions) times the length of the text stays below 2 000 encoded tokens and the nesting stays
+/// below 20 levels. The regex back end's limits are 10 MB of compiled program, a nest limit of
+/// 250 groups and counts up to 2^32-1, orders of magnitude above this. A compile error for such an
+/// expression contradicts "a compile error is reported only for an oversized program".
+pub fn certainly_not_oversized(text: &str) -> bool {
+    let mut product = 1u128;
+    let mut cur: Option<u128> = None;
+    let mut close = |cur: &mut Option<u128>| {
+        if let Some(n) = cur.take() {
+            product = product.saturating_mul(n.max(1));
+        }
+    };
+    for ch in text.chars() {
+        if let Some(d) = ch.to_digit(10) {
+            cur = Some(cur.unwrap_or(0).saturating_mul(10).saturating_add(d as u128));
+        }
+        else {
+            close(&mut cur);
+        }
+    }
+    close(&mut cur);
+    let len = text.chars().count() as u128;
+    product.saturating_mul(len.max(1)) <= 2_000 && nesting_depth(text) < 20
+}
+
+fn spurious_compile_error(text: &str, err: &str) -> bool {
+    err == OVERSIZED && certainly_not_oversized(text)
 }
 
 /// Every public operation on a built glob; returns the name of the first one that panics.
@@ -539,6 +572,14 @@ pub fn c05(tier: Tier) -> i32 {
             else if let Some(e) = r.strip_prefix("ERR ") {
                 bump(&mut c, "s1_rejected", 1);
                 local.insert(e.chars().take(50).collect());
+                if spurious_compile_error(&s, e) {
+                    rep.alarm(Alarm {
+                        class: None,
+                        key: format!("compile {:?}", s),
+                        msg: format!("Glob::new({:?}) reports a compile error, but the program is not oversized: {}", s, e),
+                        case: json!({"kind": "total", "spec": {"text": s}}),
+                    });
+                }
                 if !error_kind_ok(e) {
                     rep.alarm(Alarm {
                         class: None,
@@ -600,6 +641,14 @@ pub fn c05(tier: Tier) -> i32 {
                 case: json!({"kind": "total", "spec": {"text": e.text}}),
             });
         }
+        else if r.strip_prefix("ERR ").map_or(false, |err| spurious_compile_error(&e.text, err)) {
+            rep.alarm(Alarm {
+                class: None,
+                key: format!("compile {:?}", e.text),
+                msg: format!("Glob::new({:?}) reports a compile error, but the program is not oversized", e.text),
+                case: json!({"kind": "total", "spec": {"text": e.text}}),
+            });
+        }
     });
     rep.add("program_space_expressions", n);
     // S2 / S3: isolated
@@ -623,7 +672,13 @@ pub fn c05(tier: Tier) -> i32 {
             }
             else if let Some(e) = r.strip_prefix("ERR ") {
                 rep.add("isolated_rejected", 1);
-                if error_kind_ok(e) { None } else { Some(format!("error of unexpected kind: {}", e)) }
+                if e == OVERSIZED {
+                    rep.add("isolated_oversized_program", 1);
+                }
+                if spurious_compile_error(&expand(spec), e) {
+                    Some(format!("compile error although the program is not oversized: {}", e))
+                }
+                else if error_kind_ok(e) { None } else { Some(format!("error of unexpected kind: {}", e)) }
             }
             else if r.starts_with("ABORT signal: 9") || r.starts_with("ABORT signal: 24") {
                 // the CPU limit of the worker: the build terminates, but not within the budget
@@ -664,7 +719,8 @@ pub fn replay_total(case: &Value) -> bool {
     let spec = &case["spec"];
     let rs = run_isolated(std::slice::from_ref(spec));
     println!("expression {}: {}", describe_spec(spec), rs[0]);
-    !(rs[0] == "OK" || rs[0].strip_prefix("ERR ").map_or(false, error_kind_ok))
+    let text = expand(spec);
+    !(rs[0] == "OK" || rs[0].strip_prefix("ERR ").map_or(false, |e| error_kind_ok(e) && !spurious_compile_error(&text, e)))
 }
 
 // ---------------------------------------------------------------------------------------------
